@@ -380,14 +380,38 @@ class SigmaString(SigmaType):
     def __str__(self) -> str:
         return self.to_plain()
 
-    def to_plain(self, regex: bool = False) -> str:
-        """Generate string representation of SigmaString with or without regex escaping."""
+    def to_plain(self, regex: bool = False, escape_backslashes: bool = False) -> str:
+        """
+        Generate string representation of SigmaString with or without regex escaping.
+
+        If *escape_backslashes* is set, a plain backslash is written as escaped backslash where it
+        otherwise would be read as escaping of the following character (another backslash or a
+        wildcard) when the result is parsed again. This is required to get a string that results
+        in the same SigmaString when it is parsed, e.g. on serialization of a rule.
+        """
         rs = ""
-        for s in self.s:
+        for i, s in enumerate(self.s):
             if isinstance(s, str):
                 if regex:
                     rs += s
                 else:
+                    if escape_backslashes:
+                        # character that follows this part: a wildcard is written as * or ?
+                        following = self.s[i + 1] if i + 1 < len(self.s) else None
+                        next_part = (
+                            special_char_mapping[following]
+                            if isinstance(following, SpecialChars)
+                            else ""
+                        )
+                        s = "".join(
+                            (
+                                escape_char + c
+                                if c == escape_char
+                                and (s + next_part)[j + 1 : j + 2] in (escape_char, "*", "?")
+                                else c
+                            )
+                            for j, c in enumerate(s)
+                        )
                     rs += s.replace("*", "\\*").replace("?", "\\?")
             elif isinstance(s, SpecialChars):
                 rs += special_char_mapping[s]
